@@ -2,8 +2,8 @@ package main
 
 import (
 	"fmt"
-	"go/token"
 	"go/constant"
+	"go/token"
 	"go/types"
 
 	"golang.org/x/tools/go/ssa"
@@ -299,6 +299,24 @@ func runC09(a *A) {
 					}
 				}
 			}
+			if !okCopy {
+				// the same prefix copied row by row: for i := 0; i < threshold; i++ { batch[i] = buf[i] }
+				if src, bound, isLoop := elementwiseCopy(ms); isLoop {
+					okBound := isThr(bound)
+					if lc, isCall := bound.(*ssa.Call); isCall {
+						if cc, isLen := isBuiltinCall(lc, "len"); isLen && cc.Args[0] == ssa.Value(ms) && isThr(ms.Len) {
+							okBound = true
+						}
+					}
+					if sl, isSl := src.(*ssa.Slice); isSl && sl.Low == nil {
+						src = sl.X
+					}
+					bt := TermOf(src, nil)
+					if okBound && bt.Kind == "call" && bt.Name == "append" && len(bt.Args) > 0 && bt.Args[0].Kind == "index" && isFieldOf(bt.Args[0].Base, "window.CountingWindow", "keyedBuffer") {
+						okCopy = true
+					}
+				}
+			}
 			a.Check(okCopy, fname(g)+"#batch-prefix", ms.Pos(), "batch = copy of buf[:threshold] where buf is the key's buffer plus the arriving row",
 				"the delivered batch is not filled by copy(batch, buf[:threshold]) from the key's buffer")
 		}
@@ -313,26 +331,29 @@ func runC09(a *A) {
 				return // buffer + arriving row
 			}
 			nrem++
-			ms, ok := mu.Value.(*ssa.MakeSlice)
-			if !ok {
-				a.Bad(fname(g)+"#remainder-fresh", in.Pos(), "after firing, keyedBuffer[key] is set to %s, not to a fresh slice (would alias the emitted batch)", TermOf(mu.Value, nil))
-				return
-			}
-			if c, ok := ms.Len.(*ssa.Const); ok && c.Int64() == 0 {
-				a.Ok(fname(g)+"#remainder-fresh", in.Pos(), "empty fresh remainder")
-				return
-			}
-			okCopy := false
-			for _, r := range *ms.Referrers() {
-				if c, isCall := r.(*ssa.Call); isCall {
-					if cc, isCopy := isBuiltinCall(c, "copy"); isCopy && cc.Args[0] == ssa.Value(ms) {
-						if sl, ok := cc.Args[1].(*ssa.Slice); ok && sl.High == nil && isThr(sl.Low) {
-							okCopy = true
+			// the remainder carried in a variable (`rest = make(…)` in either arm, then one store): each value it can hold
+			for _, val := range phiLeaves(mu.Value) {
+				ms, ok := val.(*ssa.MakeSlice)
+				if !ok {
+					a.Bad(fname(g)+"#remainder-fresh", in.Pos(), "after firing, keyedBuffer[key] is set to %s, not to a fresh slice (would alias the emitted batch)", TermOf(val, nil))
+					continue
+				}
+				if c, ok := ms.Len.(*ssa.Const); ok && c.Int64() == 0 {
+					a.Ok(fname(g)+"#remainder-fresh", in.Pos(), "empty fresh remainder")
+					continue
+				}
+				okCopy := false
+				for _, r := range *ms.Referrers() {
+					if c, isCall := r.(*ssa.Call); isCall {
+						if cc, isCopy := isBuiltinCall(c, "copy"); isCopy && cc.Args[0] == ssa.Value(ms) {
+							if sl, ok := cc.Args[1].(*ssa.Slice); ok && sl.High == nil && isThr(sl.Low) {
+								okCopy = true
+							}
 						}
 					}
 				}
+				a.Check(okCopy, fname(g)+"#remainder-fresh", in.Pos(), "remainder = fresh copy of buf[threshold:] (same bound as the batch cut)", "the carried remainder is not copy(rem, buf[threshold:])")
 			}
-			a.Check(okCopy, fname(g)+"#remainder-fresh", in.Pos(), "remainder = fresh copy of buf[threshold:] (same bound as the batch cut)", "the carried remainder is not copy(rem, buf[threshold:])")
 		})
 		if nrem == 0 {
 			a.Und(fname(g)+"#remainder-fresh", g.Pos(), "no remainder store found")
@@ -411,7 +432,6 @@ func scanHosts(a *A, g *ssa.Function, f func(ssa.Instruction)) {
 		allInstrs(h, f)
 	}
 }
-
 
 // returnLeaves: the values result k of fn can be (through phis and through the locals go/ssa spills results into
 // when the function defers).
